@@ -54,6 +54,54 @@ func govcTry(name string, serve func(h *Handler, w http.ResponseWriter, r *http.
 	return ""
 }
 
+// govcSwapGate is a gate whose Start returns only after a configuration reload has installed
+// another gate — what happens to a request that queues at a full gate while the limits are reloaded.
+type govcSwapGate struct {
+	inner  gate.Gate
+	reload func()
+}
+
+func (g *govcSwapGate) Start(ctx context.Context) error {
+	err := g.inner.Start(ctx)
+	g.reload()
+	return err
+}
+func (g *govcSwapGate) Done() { g.inner.Done() }
+
+type govcErrBody struct{}
+
+func (govcErrBody) Read([]byte) (int, error) { return 0, fmt.Errorf("client went away") }
+
+// govcReload: while a request waits in Start of gate g1, a reload installs gate g2. When the
+// request ends, its slot of g1 must be free again and g2 must be untouched — the slot belongs to
+// the gate object Start was called on.
+func govcReload(name string, serve func(h *Handler, w http.ResponseWriter, r *http.Request)) string {
+	g1 := gate.New(nil, 1, gate.WriteRequests)
+	g2 := gate.New(nil, 1, gate.WriteRequests)
+	h := govcHandlerWithGate(nil)
+	h.Limiter.writeGate = &govcSwapGate{inner: g1, reload: func() {
+		h.Limiter.Lock()
+		h.Limiter.writeGate = g2 // what a reload of the limits configuration does
+		h.Limiter.Unlock()
+	}}
+	req := httptest.NewRequest(http.MethodPost, "/api/v1/receive", govcErrBody{})
+	rec := httptest.NewRecorder()
+	var panicked interface{}
+	func() {
+		defer func() { panicked = recover() }()
+		serve(h, rec, req)
+	}()
+	if panicked != nil {
+		return fmt.Sprintf("%s: limits reloaded while a request waited at the gate: the request's Done went to the NEW gate, which never admitted it (%v)", name, panicked)
+	}
+	ctx, cancel := context.WithTimeout(context.Background(), 100*time.Millisecond)
+	defer cancel()
+	if err := g1.Start(ctx); err != nil {
+		return fmt.Sprintf("%s: limits reloaded while a request waited at the gate: the request ended (status %d) but the slot it held in the gate it entered through is never given back", name, rec.Code)
+	}
+	return ""
+}
+
 func TestGovcReplay(t *testing.T) {
 	if _, err := os.ReadFile(os.Getenv("GOVC_REPLAY_FILE")); err != nil {
 		t.Skip("no replay file")
@@ -63,6 +111,12 @@ func TestGovcReplay(t *testing.T) {
 		msgs = append(msgs, m)
 	}
 	if m := govcTry("receiveOTLPHTTP", func(h *Handler, w http.ResponseWriter, r *http.Request) { h.receiveOTLPHTTP(w, r) }); m != "" {
+		msgs = append(msgs, m)
+	}
+	if m := govcReload("receiveHTTP", func(h *Handler, w http.ResponseWriter, r *http.Request) { h.receiveHTTP(w, r) }); m != "" {
+		msgs = append(msgs, m)
+	}
+	if m := govcReload("receiveOTLPHTTP", func(h *Handler, w http.ResponseWriter, r *http.Request) { h.receiveOTLPHTTP(w, r) }); m != "" {
 		msgs = append(msgs, m)
 	}
 	if len(msgs) > 0 {
